@@ -112,8 +112,23 @@ func (l *loop) post(f func()) {
 	l.mu.Unlock()
 }
 
+// WakeDelay, when set, is how long the loop takes to notice posted work (the
+// eventfd wake-up and the return from epoll_wait of the real engine): work
+// handed over with AsyncWrite / Close runs that much later.
+var WakeDelay func() time.Duration
+
 func (l *loop) run(stop <-chan struct{}) {
 	for {
+		if h := WakeDelay; h != nil {
+			l.mu.Lock()
+			n := len(l.tasks)
+			l.mu.Unlock()
+			if n > 0 {
+				if d := h(); d > 0 {
+					time.Sleep(d)
+				}
+			}
+		}
 		l.mu.Lock()
 		ts := l.tasks
 		l.tasks = nil
